@@ -81,6 +81,8 @@ def _strategy():
     @st.composite
     def cases(draw):
         s = draw(G.schema_strategy())
+        if draw(st.integers(0, 2)) == 0:
+            G.add_weak_family(s, draw)
         variants = []
         for _ in range(3):
             s2 = G.permute_members(s, draw) if draw(st.booleans()) else s
